@@ -47,6 +47,78 @@ theorem seek_core (v : Bytes) : ∀ ss : List Bytes, ss.Pairwise (fun a b => byt
         simp [this] at hlt'
       simp [keyGe, hlt', SVal.toStr, htail]
 
+/-! ### the seek shortcut on buckets that hold more than strings -/
+
+/-- the shortcut is sound on every bucket: when the element the seek lands on satisfies the
+    predicate, some element does (it can omit matches, never invent one) -/
+theorem seek_sound (es : List (SVal F)) (v : Bytes) (g : SVal F → Bool)
+    (h : (match seekTo es v with | some e => g e | none => false) = true) : es.any g = true := by
+  unfold seekTo at h
+  cases hf : es.find? (keyGe v) with
+  | none => simp [hf] at h
+  | some e =>
+    simp only [hf] at h
+    exact List.any_eq_true.mpr ⟨e, List.mem_of_find?_eq_some hf, h⟩
+
+/-- the keys of a bbolt bucket that holds elements of several types, in key order: the type byte
+    comes first, so bools / ints / floats (`lo`) precede the strings, datetimes and nils (`hi`) follow -/
+def KeyOrdered (es : List (SVal F)) : Prop :=
+  ∃ (lo : List (SVal F)) (ss : List Bytes) (hi : List (SVal F)),
+    es = lo ++ ss.map SVal.str ++ hi ∧ ss.Pairwise (fun a b => bytesLt a b = true) ∧
+    (∀ e ∈ lo, ∀ v, keyGe v e = false) ∧ (∀ e ∈ hi, ∀ v, keyGe v e = true) ∧ (∀ e ∈ hi, e.isStr = false)
+
+theorem find_lo (v : Bytes) (lo rest : List (SVal F)) (h : ∀ e ∈ lo, ∀ v, keyGe v e = false) :
+    (lo ++ rest).find? (keyGe v) = rest.find? (keyGe v) := by
+  induction lo with
+  | nil => rfl
+  | cons a t ih =>
+    simp only [List.cons_append, List.find?_cons, h a (List.mem_cons_self ..) v]
+    exact ih (fun e he => h e (List.mem_cons_of_mem _ he))
+
+/-- what the seek shortcut computes on a bucket of mixed types: whether the compared string is one
+    of the *string* elements — unless no string element is ≥ it and the first datetime / nil element
+    happens to render to it -/
+theorem seek_typed (fo : FloatOps F) (v : Bytes) (lo : List (SVal F)) (ss : List Bytes) (hi : List (SVal F))
+    (hss : ss.Pairwise (fun a b => bytesLt a b = true))
+    (hlo : ∀ e ∈ lo, ∀ v, keyGe v e = false)
+    (hv : ∀ e ∈ hi, e.toStr fo ≠ some v) :
+    (match seekTo (lo ++ ss.map SVal.str ++ hi) v with
+     | some e => e.toStr fo == some v
+     | none => false) = ss.any (· == v) := by
+  unfold seekTo
+  rw [List.append_assoc, find_lo v lo _ hlo, List.find?_append]
+  have core := seek_core (F := F) (fo := fo) v ss hss
+  cases hf : (ss.map (SVal.str (F := F))).find? (keyGe v) with
+  | some e => simpa [hf] using core
+  | none =>
+    rw [hf] at core
+    simp only [Option.none_or]
+    rw [← core]
+    cases hh : hi.find? (keyGe v) with
+    | none => rfl
+    | some e =>
+      have := hv e (List.mem_of_find?_eq_some hh)
+      simp [this]
+
+/-- the shortcut equals the scan on a mixed bucket exactly as long as no element that is not a
+    string renders to the compared string -/
+theorem seek_eq_scan_typed (fo : FloatOps F) (v : Bytes) (lo : List (SVal F)) (ss : List Bytes) (hi : List (SVal F))
+    (hss : ss.Pairwise (fun a b => bytesLt a b = true))
+    (hlo : ∀ e ∈ lo, ∀ v, keyGe v e = false)
+    (hv : ∀ e ∈ lo ++ hi, e.toStr fo ≠ some v) :
+    (match seekTo (lo ++ ss.map SVal.str ++ hi) v with
+     | some e => e.toStr fo == some v
+     | none => false) = (lo ++ ss.map SVal.str ++ hi).any (fun e => e.toStr fo == some v) := by
+  rw [seek_typed fo v lo ss hi hss hlo (fun e he => hv e (List.mem_append_right _ he))]
+  have h1 : lo.any (fun e => e.toStr fo == some v) = false :=
+    List.any_eq_false.mpr fun e he => by simpa using hv e (List.mem_append_left _ he)
+  have h2 : hi.any (fun e => e.toStr fo == some v) = false :=
+    List.any_eq_false.mpr fun e he => by simpa using hv e (List.mem_append_right _ he)
+  have h3 : (ss.map (SVal.str (F := F))).any (fun e => e.toStr fo == some v) = ss.any (· == v) := by
+    simp [List.any_map, Function.comp_def, SVal.toStr]
+  rw [List.any_append, List.any_append, h1, h2, h3]
+  simp
+
 /-! ### the paging scanner of a sub-query -/
 
 theorem scanCount_eq (m nil : C → Bool) (off : Nat) (lim : Option Nat) :
@@ -121,5 +193,53 @@ theorem scanCount_paged (m nil : C → Bool) (skip limit : Option Int) (rows : L
   rw [scanCount_eq m nil _ _ rows 0 0 (Nat.zero_le _) (fun _ => rfl)]
   unfold paged
   cases pagingLimit limit <;> simp
+
+/-! ### `sort by` inside a sub-query cannot be observed through `count` / `isEmpty` -/
+
+theorem insertBy_length {α} (le : α → α → Bool) (x : α) (l : List α) : (insertBy le x l).length = l.length + 1 := by
+  induction l with
+  | nil => rfl
+  | cons y ys ih => simp only [insertBy]; split <;> simp [ih]
+
+theorem sortBy_length {α} (le : α → α → Bool) (l : List α) : (sortBy le l).length = l.length := by
+  induction l with
+  | nil => rfl
+  | cons x xs ih => simp [sortBy, insertBy_length, ih]
+
+theorem insertBy_perm {α} (le : α → α → Bool) (x : α) (l : List α) : (insertBy le x l).Perm (x :: l) := by
+  induction l with
+  | nil => exact List.Perm.refl _
+  | cons y ys ih =>
+    simp only [insertBy]
+    split
+    · exact List.Perm.refl _
+    · exact (List.Perm.cons y ih).trans (List.Perm.swap x y ys)
+
+/-- `sortBy` rearranges: the same rows, each as often as before -/
+theorem sortBy_perm {α} (le : α → α → Bool) (l : List α) : (sortBy le l).Perm l := by
+  induction l with
+  | nil => exact List.Perm.refl _
+  | cons x xs ih => exact (insertBy_perm le x _).trans (List.Perm.cons x ih)
+
+/-- how many rows skip / limit keep depends only on how many rows there are -/
+theorem paged_length {α} (skip limit : Option Int) (l : List α) :
+    (paged skip limit l).length =
+      (match pagingLimit limit with
+       | some k => min k (l.length - pagingOffset skip)
+       | none => l.length - pagingOffset skip) := by
+  unfold paged
+  cases pagingLimit limit <;> simp
+
+theorem paged_length_congr {α β} (skip limit : Option Int) (l₁ : List α) (l₂ : List β) (h : l₁.length = l₂.length) :
+    (paged skip limit l₁).length = (paged skip limit l₂).length := by
+  rw [paged_length, paged_length, h]
+
+/-- the scanner of a sub-query (which ignores the sort fields) yields as many rows as the
+    specification keeps after sorting and paging -/
+theorem scanCount_sorted (m nil : C → Bool) (le : C → C → Bool) (skip limit : Option Int) (rows : List C) :
+    scanCount m nil (pagingOffset skip) (pagingLimit limit) rows 0 0 =
+      (paged skip limit (sortBy le ((rows.filter fun r => !nil r).filter m))).length := by
+  rw [scanCount_paged]
+  exact paged_length_congr skip limit _ _ (sortBy_length le _).symm
 
 end StorageModel.Filter
